@@ -191,7 +191,11 @@ func (w *worker) runScan(cs J) J {
 			case "hash":
 				r, err = cn.DoS("HDEL", "S", elemName(e))
 			default:
-				switch delmode {
+				dm := delmode
+				if h, ok := st["how"]; ok && jStr(h) != "" {
+					dm = jStr(h)
+				}
+				switch dm {
 				case "unlink":
 					r, err = cn.DoS("UNLINK", elemName(e))
 				case "expire":
